@@ -223,3 +223,61 @@ def band_point(ctx, S, x):
             ctx.assume(Or(q == 0, q * q >= MARGIN * MARGIN * norm2(n)))
         return
     raise TypeError(k)
+
+
+# ----------------------------------------------------------------------------- admissibility of a pair
+def _band0(ctx, q, scale2):
+    """q == 0 or q^2 >= MARGIN^2 * scale2"""
+    ctx.assume(Or(q == 0, q * q >= MARGIN * MARGIN * scale2))
+
+
+def anchors(S):
+    k = S.kind
+    if k == 'Point':
+        return [S.p]
+    if k == 'Line':
+        return [S.p]
+    if k == 'HalfLine':
+        return [S.p]
+    if k == 'Segment':
+        return [S.a, S.b]
+    if k == 'Plane':
+        return [S.p]
+    return list(S.v)
+
+
+def band_pair(ctx, A, B):
+    """every incidence between A and B is exact or violated by a relative margin of 1e-3"""
+    one = ('Line', 'HalfLine', 'Segment')
+    for S, T in ((A, B), (B, A)):
+        for x in anchors(T):
+            band_point(ctx, S, x)
+    ka, kb = A.kind, B.kind
+    if ka in one and kb in one:
+        w = vsub(B.p, A.p)
+        c = cross(A.d, B.d)
+        cc = norm2(c)
+        da, db = norm2(A.d), norm2(B.d)
+        ctx.assume(Or(cc == 0, cc >= MARGIN * MARGIN * da * db))
+        vol = dot(w, c)
+        ctx.assume(Or(vol == 0, vol * vol >= MARGIN * MARGIN * cc))
+        na = dot(cross(w, B.d), c)      # sA = na/cc : parameter on A of the crossing point
+        nb = dot(cross(w, A.d), c)      # sB = nb/cc
+        for S, nS in ((A, na), (B, nb)):
+            if S.kind != 'Line':
+                _band0(ctx, nS, cc * cc)
+                if S.kind == 'Segment':
+                    _band0(ctx, nS - cc, cc * cc)
+    elif (ka in one and kb == 'Plane') or (ka == 'Plane' and kb in one):
+        L, P = (A, B) if ka in one else (B, A)
+        q = dot(P.n, L.d)
+        _band0(ctx, q, norm2(P.n) * norm2(L.d))
+        if L.kind != 'Line':
+            num = dot(P.n, vsub(P.p, L.p))
+            _band0(ctx, num, q * q)
+            if L.kind == 'Segment':
+                _band0(ctx, num - q, q * q)
+    elif ka == 'Plane' and kb == 'Plane':
+        c = cross(A.n, B.n)
+        cc = norm2(c)
+        ctx.assume(Or(cc == 0, cc >= MARGIN * MARGIN * norm2(A.n) * norm2(B.n)))
